@@ -18,3 +18,7 @@ ASSUMPTIONS = ["bounded term universe"]
 def native(tier, seed):
     from vf import spec_native
     return [spec_native.legacy_sweep(tier, seed), spec_native.pickle_sweep(tier, seed)]
+
+
+# thorough tier: deliberate edits that must turn an obligation red (applied to a scratch copy, never to /repo)
+MUTATIONS = [('contracts.taskspec', 'Task.__init__', 'dask/_task_spec.py', '                    _dependencies.update(a.dependencies)', '                    pass')]
